@@ -56,8 +56,8 @@ func (noTelemetry) SendMessage(json.Marshaler) {}
 
 type noNet struct{}
 
-func (noNet) GossipMessage(network.NotificationsMessage)               {}
-func (noNet) SendMessage(peer.ID, gp.NotificationsMessage) error        { return nil }
+func (noNet) GossipMessage(network.NotificationsMessage)         {}
+func (noNet) SendMessage(peer.ID, gp.NotificationsMessage) error { return nil }
 func (noNet) RegisterNotificationsProtocol(protocol.ID, network.MessageType, network.HandshakeGetter, network.HandshakeDecoder,
 	network.HandshakeValidator, network.MessageDecoder, network.NotificationsMessageHandler, network.NotificationsMessageBatchHandler, uint64) error {
 	return nil
@@ -90,13 +90,13 @@ type jentry struct {
 }
 
 type jspec struct {
-	round     uint64
-	entries   []jentry
-	target    int // commit target block
-	tgtDelta  int // commit target number = true number + tgtDelta
-	ask       int // the block the importer asks about
-	headers   []int // supplied ancestry headers: tree block index, or -1-i for forged header i
-	tags      map[string]bool
+	round    uint64
+	entries  []jentry
+	target   int   // commit target block
+	tgtDelta int   // commit target number = true number + tgtDelta
+	ask      int   // the block the importer asks about
+	headers  []int // supplied ancestry headers: tree block index, or -1-i for forged header i
+	tags     map[string]bool
 }
 
 type jsim struct {
